@@ -574,6 +574,8 @@ def channel_layout(lf, frame_obj):
         raise DecodeError('iflr.frame_without_channels', frame=frame_obj.name)
     out = []
     for ch in chans:
+        if not isinstance(ch, tuple) or len(ch) not in (3, 4):
+            raise DecodeError('iflr.channels_not_references', frame=frame_obj.name, value=ch)
         if len(ch) == 4:
             ch = ch[1:]
         found = lf.find_object('CHANNEL', ch)
@@ -582,9 +584,9 @@ def channel_layout(lf, frame_obj):
         co = found[0]
         rc = _attr_vals(co, 'REPRESENTATION-CODE')
         dim = _attr_vals(co, 'DIMENSION')
-        if not rc or len(rc) != 1 or rc[0] not in FIXED:
+        if not rc or len(rc) != 1 or not isinstance(rc[0], int) or rc[0] not in FIXED:
             raise DecodeError('iflr.channel_repcode', channel=ch, value=rc)
-        if not dim:
+        if not dim or not all(isinstance(d, int) and d >= 0 for d in dim):
             raise DecodeError('iflr.channel_dimension', channel=ch, value=dim)
         n = 1
         for d in dim:
@@ -594,6 +596,22 @@ def channel_layout(lf, frame_obj):
 
 
 def decode_file(data):
+    """Total function: malformed input never raises; an unexpected exception inside the reader becomes a 'reader.exception' error."""
+    try:
+        return _decode_file(data)
+    except DecodeError as e:
+        f = File()
+        f.framing = parse_framing(data)
+        f.errors.append(e.err)
+        return f
+    except Exception as e:      # pragma: no cover - defensive
+        f = File()
+        f.framing = parse_framing(data)
+        f.errors.append(Err('reader.exception', exc=repr(e)))
+        return f
+
+
+def _decode_file(data):
     f = File()
     fr = parse_framing(data)
     f.framing = fr
